@@ -14,7 +14,8 @@ from check_C02 import units_matrix, triple_mat_term
 from check_C20 import dense_vectors
 
 STARTERS = {"none": None, "bioco": "bioco", "borda": [BordaCount], "copeland": [CopelandMethod], "pickaperm": [PickAPerm],
-            "borda+copeland": [BordaCount, CopelandMethod], "copeland+pickaperm+borda": [CopelandMethod, PickAPerm, BordaCount]}
+            "borda+copeland": [BordaCount, CopelandMethod], "copeland+pickaperm+borda": [CopelandMethod, PickAPerm, BordaCount],
+            "borda+copeland+pickaperm": [BordaCount, CopelandMethod, PickAPerm]}
 
 
 def bio_scheme(rng):
@@ -88,6 +89,22 @@ class Bio(Suite):
             D = gen.random_dataset(rng, 7, 5) if rng.random() < 0.6 else layered_dataset(rng, 7, 5)
             s = opt_scheme(rng) if st in ("none", "copeland") else bio_scheme(rng)
             cases.append({"s": s, "D": D, "starters": st, "one": rng.random() < 0.4})
+        # a duplicated input ranking placed BEFORE a distinct, much better one (e.g. a previously computed consensus
+        # appended to the data), and two starters with the same consensus listed before a better one
+        for _ in range(60 if tier == "quick" else 800):
+            n = rng.randint(6, 8)
+            hidden = list(range(n))
+            rng.shuffle(hidden)
+
+            def noisy(k):
+                p = hidden[:]
+                for _ in range(k):
+                    i, j = rng.sample(range(n), 2)
+                    p[i], p[j] = p[j], p[i]
+                return [[e] for e in p]
+            first = noisy(rng.randint(2, 4))
+            D = [first, [list(b) for b in first]] + [noisy(rng.randint(2, 5)) for _ in range(rng.randint(1, 3))] + [[[e] for e in hidden]]
+            cases.append({"s": gen.UNIFYING, "D": D, "starters": rng.choice(["none", "none", "borda+copeland+pickaperm"]), "one": rng.random() < 0.3})
         return cases
 
     def run(self, case):
